@@ -11,6 +11,9 @@ sys.path.insert(0, os.path.dirname(os.path.abspath(__file__)))
 
 def configs(kind, tier):
     precs = (None, 1, 2, 15) if tier == "thorough" else (None, 1, 15)
+    if kind == "generate":
+        return [(a, b, p) for a in (False, True) for b in (False, True) for p in (precs + ((3, 7) if tier == "thorough" else ()))
+                if p is None or (a and b)]
     out = []
     for hv in (False, True):
         for hm in (False, True):
@@ -27,13 +30,17 @@ def job(args):
     import fpsym
     t0 = time.time()
     try:
-        if kind == "visit":
+        if kind == "generate":
+            recs = fpsym.explore_generate_float(cfg, z3_timeout=timeout, budget_s=budget)
+        elif kind == "visit":
             recs = fpsym.explore_visit_float(cfg, z3_timeout=timeout, budget_s=budget)
         else:
             recs = fpsym.explore_substitute_float(cfg, z3_timeout=timeout, mode=kind, budget_s=budget)
         for r in recs:
             if r.get("model"):
-                if kind == "visit":
+                if kind == "generate":
+                    ok, detail = fpsym.replay_generate_float(cfg, r["model"])
+                elif kind == "visit":
                     ok, detail = fpsym.replay_visit_float(cfg, r["model"])
                 else:
                     ok, detail = fpsym.replay_substitute_float(cfg, r["model"], r["check"])
